@@ -118,6 +118,11 @@ func (vc *VC) havocHeap(st *State, name string, s Sort) Term {
 	vc.hget(st.heap, name, s)
 	c := vc.d.freshConst(name, s)
 	st.heap.cur[name] = c
+	if name != "top" {
+		if f := vc.wfFact(name, c, s, vc.top(st)); f != "" {
+			st.assume = append(st.assume, f)
+		}
+	}
 	return c
 }
 
@@ -944,6 +949,10 @@ func (vc *VC) loopEnter(st *State, li *loopInfo, from *ssa.BasicBlock) {
 	mods := vc.loopModifies(st, li)
 	entryHeap := st.heap.clone()
 	topEntry := vc.top(st)
+	if _, ok := mods["top"]; !ok {
+		newTop := vc.havocHeap(st, "top", "Int")
+		st.assume = append(st.assume, app(">=", newTop, topEntry))
+	}
 	var names []string
 	for n := range mods {
 		names = append(names, n)
@@ -967,11 +976,6 @@ func (vc *VC) loopEnter(st *State, li *loopInfo, from *ssa.BasicBlock) {
 			conds = append(conds, not(eq("x", bt)))
 		}
 		st.assume = append(st.assume, fmt.Sprintf("(forall ((x Int)) (! (=> %s (= (select %s x) (select %s x))) :pattern ((select %s x))))", and(conds...), newT, oldT, newT))
-	}
-	// allocation counter only grows
-	if _, ok := mods["top"]; !ok {
-		newTop := vc.havocHeap(st, "top", "Int")
-		st.assume = append(st.assume, app(">=", newTop, topEntry))
 	}
 	for _, ins := range b.Instrs {
 		if phi, ok := ins.(*ssa.Phi); ok {
@@ -1189,6 +1193,9 @@ func (vc *VC) execInstr(st *State, ins ssa.Instruction) {
 			return
 		}
 		fs := sortOf(f.Type())
+		if isRefLike(f.Type()) {
+			vc.refArrays[arr] = true
+		}
 		vc.hget(st.heap, arr, arrSort(fs))
 		st.vals[x] = Val{Loc: &Loc{Arr: arr, ESort: fs, Base: base.T, BaseV: x.X}, Typ: x.Type()}
 	case *ssa.Field:
